@@ -24,6 +24,7 @@ func run(e *harness.Env) {
 		"headings-as-TOC-matched-paragraphs, offset page numbers, empty page first/middle/last} (length 4: 8 configurations on the plain variant, small on 3 variants); " +
 		"(di-table) 15 table shapes (1x1, header-only, Nx1, 2x3, 3x2, ragged rows wider/narrower than the header, empty cells, header without cells, 4x3 larger than the small maxima; one unique word set per cell) " +
 		"x every context of <=2 preceding and <=1 (thorough <=2) following elements over {H1,P,LP,IA,TB} x page cut before the table x all 18 size configurations; " +
+		"(text) 20 decorations (printf verbs, backslash/quotes, markdown/HTML/template/regexp-replacement characters) appended to every word x every element kind alone and under a heading x both chunkers x plain and splitting configurations; " +
 		"(di-nest) every heading-level sequence over H1..H4 of length <=5 (quick) / <=6 (thorough), one body element per heading; " +
 		"(layout) the same kind of sequences over what model.PageLayout can hold {H1..H4, paragraphs, lists} cut into <=3 pages x ChunkerConfig variants; " +
 		"(layout-nest) every heading-level sequence of length <=4 / <=5 x every subset of headings that have a body paragraph x two page packings. " +
@@ -32,6 +33,7 @@ func run(e *harness.Env) {
 	e.Assumptions = []string{
 		"document order is the order of Page.Elements over Pages; Page.Layout lists are filled consistently with it (same texts, same relative order, descending Y)",
 		"white space is not content: words are compared after removing all white space from the concatenated chunk texts",
+		"clause text: a heading / paragraph / list item / table cell / alt text whose words are all present once must occur verbatim (white space aside) in the concatenated chunk texts; '|' is not in the text alphabet (its escaping in table cells is C15's subject)",
 		"the layout-based chunker carries section headings in SectionPath/SectionTitle (TextWithContext prefix), not in Chunk.Text; a heading counts as covered where the first chunk naming it in SectionPath appears",
 		"page identity is Page.Number",
 		"overlap: neither Chunk() nor ChunkDocument[WithConfig]() applies overlap whatever OverlapSize says; ChunkWithOverlapEnabled (sanctioned repeats) is not part of the coverage check",
@@ -41,6 +43,7 @@ func run(e *harness.Env) {
 	spaceDI(e)
 	spaceDINest(e)
 	spaceDITable(e)
+	spaceText(e)
 	spaceLayout(e)
 	spaceLayoutNest(e)
 }
@@ -494,6 +497,50 @@ func spaceDITable(e *harness.Env) {
 	}
 }
 
+// textDeco is the decoration of the documents layoutCase builds (set by spaceText only).
+var textDeco string
+
+// every element kind x every decoration (characters a formatting / escaping layer could interpret,
+// appended to every word of the document) x both chunkers x plain and splitting size configurations
+func spaceText(e *harness.Env) {
+	e.Note("bound_text", fmt.Sprintf("%d decorations x every element kind (alone, and under a heading) x both chunkers x 4+3 size configurations", len(decorations)))
+	dcfgs := diConfigs()
+	dsel := []diCfg{dcfgs[0], dcfgs[1], dcfgs[2], dcfgs[4]}
+	lcfgs := layConfigs()[:3]
+	for _, d := range decorations {
+		for k := kind(0); k < nKinds; k++ {
+			if k == kIN {
+				continue
+			}
+			for ci, pages := range [][][]kind{{{k}}, {{kH1, k, kP}}} {
+				f := docFeats(pages, 6)
+				for _, hrep := range []string{"elem", "toc"} {
+					for _, cfg := range dsel {
+						spec := docSpec{pages: pages, empty: -1, hrep: hrep, layout: hrep == "toc", lpToks: cfg.lpWords, majorMax: 6, deco: d.s}
+						base := desc("space", "text", "ck", "di", "cfg", cfg.name, "hrep", hrep, "pnum", 1, "empty", "none",
+							"skip", yn(f.skip), "pops", yn(f.pops), "deco", d.name, "ctx", ci, "doc", spec.String())
+						mine, only := owned(e, base)
+						if !mine {
+							continue
+						}
+						evalCase(e, base, only, spec, false, cfg.chunk)
+					}
+				}
+			}
+			if !k.inLayout() {
+				continue
+			}
+			textDeco = d.s
+			for _, pages := range [][][]kind{{{k}}, {{kH1, k}}, {{kH1, kP}, {k}}} {
+				for _, cfg := range lcfgs {
+					layoutCase(e, "text", pages, variant{"elem", 0, "none"}, cfg, "deco", d.name)
+				}
+			}
+			textDeco = ""
+		}
+	}
+}
+
 // every heading-level sequence, one body element after each heading
 func spaceDINest(e *harness.Env) {
 	maxLen := 5
@@ -629,7 +676,7 @@ func layoutCase(e *harness.Env, space string, pages [][]kind, v variant, cfg lay
 	if !canonical(pages) {
 		order = "interleaved"
 	}
-	spec := docSpec{pages: pages, empty: ei, pnumOff: v.off, hrep: "elem", layout: true, lpToks: wordsForChars(cfg.cc.MaxChunkSize), majorMax: mm}
+	spec := docSpec{pages: pages, empty: ei, pnumOff: v.off, hrep: "elem", layout: true, lpToks: wordsForChars(cfg.cc.MaxChunkSize), majorMax: mm, deco: textDeco}
 	kv := []interface{}{"space", space, "ck", "layout", "cfg", cfg.name, "pnum", v.off + 1, "empty", v.empty, "order", order,
 		"skip", yn(f.skip), "pops", yn(f.pops), "nested", yn(f.nested), "emptyleaf", yn(f.emptyleaf),
 		"minorfirst", yn(f.minorfirst), "minortail", yn(f.minortail), "introlist", yn(f.introlist)}
